@@ -370,6 +370,7 @@ type State struct {
 	polls   []poll                  // stop polls passed since the head of the innermost loop (C16)
 	loopBinds map[string]Val        // $i<ord> / $range<ord> of the enclosing loops
 	nameLog []string                // (term, constant) pairs in the order they were named
+	brokenInv bool                  // the path passed the head of a loop one of whose invariants could not be evaluated (contract out of date)
 	weak    bool                    // the path passed the head of a loop that has no invariant: states on it need not be reachable
 	inlineEntry *State              // state at the entry of the function being executed inline (old() of its loop invariants)
 }
@@ -418,6 +419,7 @@ func (s *State) fork() *State {
 	n.nameLog = s.nameLog[:len(s.nameLog):len(s.nameLog)]
 	n.inlineEntry = s.inlineEntry
 	n.weak = s.weak
+	n.brokenInv = s.brokenInv
 	if s.writes != nil {
 		n.writes = make(map[string][]wr, len(s.writes))
 		for k, v := range s.writes {
